@@ -12,7 +12,8 @@ RULE = ("one case = (adaptive method or Richardson wrapper, problem class+seed, 
         "recorded states are compared with the exact solution in units of (atol+rtol|y|) (contractive problems: amplification ~1); the "
         "step() wrapper logs every attempt and consecutive attempts from the same state must strictly shrink after a controller "
         "rejection; non-trivial = >=5 recorded steps; distinct by (method, problem, tol decade, direction, dt class)")
-ASSUMPTIONS = ["problems are contractive along the direction of integration (logarithmic norm <= 0), so the problem's own amplification is ~1",
+ASSUMPTIONS = ["'smooth' is relative to the step: steps more than twice as long as the width of the Gaussian feature they run into (bump problems) are not judged",
+               "problems are contractive along the direction of integration (logarithmic norm <= 0), so the problem's own amplification is ~1",
                "tolerance unit per component: atol + rtol*max(|y_i|, 0.1*max_j|y_j|) (a component passing through zero is judged on the scale of the solution)"]
 FLOORS = {"quick": {"runs_checked": 45, "local_steps_checked": 1000, "rejected_attempts_forward": 30, "rejected_attempts_backward": 30, "blowup_runs": 6, "blowup_raised": 1, "closing_step_rejected": 8},
           "thorough": {"runs_checked": 400, "local_steps_checked": 10000, "rejected_attempts_forward": 300, "rejected_attempts_backward": 300, "blowup_runs": 25, "blowup_raised": 5, "closing_step_rejected": 30}}
@@ -23,10 +24,10 @@ CASE_TIMEOUT = 600
 
 
 class LinExp:
-    def __init__(self, dim, seed, direction):
+    def __init__(self, dim, seed, direction, rate=1.0):
         rng = rng_for(501, dim, seed)
-        Dg = np.diag(rng.uniform(0.2, 2.0, dim))
-        S = rng.uniform(-2, 2, (dim, dim))
+        Dg = np.diag(rng.uniform(0.2, 2.0, dim)) * rate
+        S = rng.uniform(-2, 2, (dim, dim)) * min(rate, 3.0)
         self.A = -float(direction) * Dg + 0.5 * (S - S.T)
         self.y0v = rng.uniform(-1, 1, dim)
         self.dim = dim
@@ -83,6 +84,16 @@ def gen_cases(tier, seed):
             cases.append(dict(kind="tol", method=name, rich=0, problem=str(rng.choice(["ms", "lin"])), dim=int(rng.integers(2, 5)),
                               rtol=rt, atol=rt * 10 ** float(rng.uniform(-3, 0)), t0=t0, tf=t0 + d * span, dt=frac * span * float(rng.choice([-1, 1])), dtfrac=frac,
                               pseed=int(rng.integers(1 << 30)), cost=(3 if info["explicit"] else 25) * (1 + (-np.log10(rt)) / 4)))
+    # core battery (every seed): an initial step far beyond the span makes the first attempts wildly inaccurate; whatever they leave behind in the
+    # controller (error scale, step memory) must not loosen the test of the attempt that is finally accepted - high-order pairs are the sensitive ones
+    for name in [n for n in adaptive if M[n]["explicit"] and M[n]["order"] >= 5]:
+        for d in (1, -1):
+            for pb, rate in (("lin", 1.0), ("ms", 1.0), ("lin", 10.0)):
+                rt = 10 ** float(rng.uniform(-8, -3))
+                span = float(rng.uniform(1.0, 2.0))
+                t0 = float(rng.uniform(-2, 2))
+                cases.append(dict(kind="tol", method=name, rich=0, problem=pb, rate=rate, dim=3, rtol=rt, atol=rt * 0.1, t0=t0, tf=t0 + d * span,
+                                  dt=float(rng.choice([4.0, 20.0])) * span, dtfrac=20.0, pseed=int(rng.integers(1 << 30)), cost=4))
     # solution magnitudes far from 1 with atol and rtol far apart (atol vs rtol*|y| must be told apart), and problems that are quiet
     # until a sharp feature just before the end (the closing step of the call is rejected and retried)
     for name in adaptive:
@@ -185,7 +196,7 @@ def run_case(spec):
     elif spec["problem"] == "ms_bump":
         prob = LateBump(Manufactured(spec["dim"], spec["pseed"], direction=d), t0, tf)
     else:
-        prob = LinExp(spec["dim"], spec["pseed"], d)
+        prob = LinExp(spec["dim"], spec["pseed"], d, rate=spec.get("rate", 1.0))
         prob.t0 = t0
     y0 = prob.ystar(t0).astype(dt)
     label = spec["method"] + ("/R%d" % spec["rich"] if spec["rich"] else "")
@@ -237,12 +248,27 @@ def run_case(spec):
     # (i) global: error in tolerance units, normalised by the number of steps inside the problem's memory window
     #     (error-per-step control: local errors accumulate over ~1/damping time units even on contractive problems)
     tl = t.astype(np.longdouble)
+    # "smooth" is relative to the step: a recorded step that runs into a Gaussian feature more than twice narrower than itself is outside the
+    # premise (every embedded estimate is built from derivatives the stage points cannot see there); such steps, and the states after the first
+    # of them, are counted but not judged.  Steps that resolve the feature are judged as usual.
+    first_unresolved = len(t)
+    unresolved = set()
+    if hasattr(prob, "tc") and hasattr(prob, "w"):
+        tcs, ws = np.atleast_1d(np.asarray(prob.tc, dtype=float)), np.atleast_1d(np.asarray(prob.w, dtype=float))
+        for k in range(len(t) - 1):
+            a_, b_ = sorted([float(t[k]), float(t[k + 1])])
+            for tc_, w_ in zip(tcs, ws):
+                if b_ >= tc_ - 5 * w_ and a_ <= tc_ + 5 * w_ and (b_ - a_) > 2.0 * w_:
+                    unresolved.add(k)
+        if unresolved:
+            first_unresolved = min(unresolved) + 1
+            rec.bump("steps_wider_than_the_feature_not_judged", len(unresolved))
     mu = float(np.min(np.abs(np.diag(prob.A + prob.A.T)))) / 2.0
     T_mem = 1.0 / max(mu, 1e-3)
     worst = 0.0
     worst_norm = 0.0
     wk = 0
-    for k in range(len(t)):
+    for k in range(min(len(t), first_unresolved)):
         ys = prob.ystar(float(t[k]))
         mag = np.maximum(np.abs(ys), 0.1 * float(np.max(np.abs(ys))))    # a component passing through zero is judged on the solution's scale
         r = float(np.max(np.abs(y[k].astype(np.longdouble) - ys) / (spec["atol"] + spec["rtol"] * mag)))
@@ -267,6 +293,8 @@ def run_case(spec):
     if spec["rtol"] >= 1e-9 and len(t) > 1:
         idx = sorted(set(list(range(min(12, len(t) - 1))) + [int(i) for i in np.linspace(0, len(t) - 2, 60)]))
         for k in idx:
+            if k in unresolved:
+                continue
             ref = _local_flow(prob, spec["problem"], float(t[k]), y[k], float(t[k + 1]))
             ymag = np.maximum(np.abs(y[k]), np.abs(y[k + 1]))
             scale = spec["atol"] + spec["rtol"] * np.maximum(ymag, 0.1 * float(np.max(ymag)))
